@@ -38,7 +38,7 @@ IsAsc(q) == \A i \in 1..(Len(q) - 1) : q[i] < q[i + 1]
 
 Fresh(run) == [
   c          |-> run,     \* Reset record of the current run (scenario constants)
-  phase      |-> "search",\* "search" | "terminated" | "returned"
+  phase      |-> "search",\* "search" | "terminated" (the lookup's own search phase; set by the Terminate event)
   seeded     |-> FALSE,   \* the seeding update has been processed
   entered    |-> {},      \* peers that entered the lookup from answers processed in the search phase
   failed     |-> {},      \* peers whose dial/request failed (delivered) while the search phase ran
@@ -60,8 +60,11 @@ Fresh(run) == [
   chanClosed |-> FALSE,
   provNamed  |-> IF run.op = "findprov" THEN Range(run.localprv) ELSE {},
   countHit   |-> FALSE,   \* findprov: count reached at the previous quiescent point
-  vals       |-> IF run.op \in {"getvalue", "searchvalue"} /\ run.localval # "" THEN {run.localval} ELSE {},
+  vals       |-> IF run.op \in {"getvalue", "searchvalue"} /\ run.lvvalid THEN {run.localval} ELSE {},
   putSent    |-> {},      \* peers that were sent PUT_VALUE / ADD_PROVIDER
+  withVal    |-> <<>>,    \* peer -> valid, correctly keyed value it delivered while the search was open
+  nvals      |-> IF run.op \in {"getvalue", "searchvalue"} /\ run.lvvalid THEN 1 ELSE 0, \* valid values supplied so far
+  bestRank   |-> IF run.op \in {"getvalue", "searchvalue"} /\ run.lvvalid THEN run.lvrank ELSE -1, \* best rank supplied while the search was open
   viol       |-> {} ]
 
 c == s.c
@@ -83,6 +86,13 @@ ReqTyp == CASE c.op \in {"gcp", "findpeer", "putvalue", "provide"} -> "FIND_NODE
             [] c.op \in {"getvalue", "searchvalue"} -> "GET_VALUE"
             [] c.op = "findprov" -> "GET_PROVIDERS"
             [] OTHER -> "?"
+
+\* operations whose per-peer query is the plain closest-peers request
+PlainOps == {"gcp", "findpeer", "putvalue", "provide"}
+\* how the operation treats a delivery: a GET_VALUE answer carrying a record filed
+\* under another key is rejected as a whole (the peer counts as failed)
+EffOut(ev) == IF ev.out # "ok" THEN "fail"
+              ELSE IF ev.typ = "GET_VALUE" /\ ev.val # "" /\ ~ev.vkey THEN "fail" ELSE "ok"
 
 StOf(p) == IF p \in DOMAIN s.st THEN s.st[p] ELSE "none"
 SetSt(f, p, v) == [q \in (DOMAIN f) \cup {p} |-> IF q = p THEN v ELSE f[q]]
@@ -115,8 +125,9 @@ RespPeer ==
          okEv == Len(Ev.queried) = 1 /\ Len(Ev.unreach) = 0 /\ Ev.queried[1] = p
          failEv == Len(Ev.queried) = 0 /\ Len(Ev.unreach) = 1 /\ Ev.unreach[1] = p
          matches == s.lastDel.p = p
-         heardOK == okEv => (matches /\ s.lastDel.out = "ok" /\ s.lastDel.kind = "req"
-                             /\ Range(Ev.heard) = FilterCap(s.lastDel.closer))
+         heardOK == (okEv /\ c.op \in PlainOps) =>
+                       (matches /\ s.lastDel.out = "ok" /\ s.lastDel.kind = "req"
+                        /\ Range(Ev.heard) = FilterCap(s.lastDel.closer))
          failOK == failEv => Len(Ev.heard) = 0
          s1 == [q \in (DOMAIN s.st) \cup Range(Ev.heard) |->
                   IF q \in DOMAIN s.st THEN s.st[q] ELSE "heard"]
@@ -153,6 +164,12 @@ TermEv ==
                   \cup Flag(s.reason = "", "C01", "t_terminated_twice")])
 
 \* ---- environment events -------------------------------------------------
+\* the value search still consumes values: its output is open, the caller has not
+\* cancelled, and the quorum has not been exceeded (judged at delivery time; deliveries
+\* are separated by quiescent points, so the previous ones have been fully processed)
+QuorumHit == c.quorum > 0 /\ s.nvals > c.quorum
+SearchOpen == ~s.chanClosed /\ s.ret = NoRet /\ ~s.cancelled /\ ~QuorumHit
+
 IsLookupReq(ev) == ev.kind = "dial" \/ (ev.kind = "req" /\ ev.typ = ReqTyp)
 
 Sent ==
@@ -161,28 +178,46 @@ Sent ==
      Step([s EXCEPT
        !.sentSearch = IF lk /\ s.phase = "search" THEN @ \cup {Ev.p} ELSE @,
        !.sentReq = IF Ev.kind = "req" /\ Ev.typ = ReqTyp THEN @ \cup {Ev.p} ELSE @,
-       !.putSent = IF Ev.typ \in {"PUT_VALUE", "ADD_PROVIDER"} THEN @ \cup {Ev.p} ELSE @])
+       !.putSent = IF Ev.typ \in {"PUT_VALUE", "ADD_PROVIDER"} THEN @ \cup {Ev.p} ELSE @,
+       !.viol = @
+         \cup (IF c.op = "putvalue" /\ Ev.kind = "req" /\ Ev.typ \in {"PUT_VALUE", "FIND_NODE"}
+               THEN Flag(Ev.haslocal = c.putval, "C06", "a_sent_before_local_store") ELSE {})
+         \cup (IF c.op = "putvalue" /\ Ev.typ = "PUT_VALUE"
+               THEN Flag(Ev.val = c.putval /\ Ev.keyok, "C06", "b_different_record_sent") ELSE {})
+         \cup (IF c.op = "provide" /\ Ev.typ = "ADD_PROVIDER"
+               THEN Flag(Ev.provs = <<0>>, "C06", "c_provider_not_exactly_self")
+                    \cup Flag(Ev.addrsok, "C06", "c_wrong_addresses")
+                    \cup Flag(Ev.keyok, "C06", "c_wrong_key")
+                    \cup Flag(Ev.p \notin s.putSent, "C06", "c_more_than_one_add_provider")
+               ELSE {})
+         \cup (IF c.op = "findprov" /\ Ev.kind = "req" /\ Ev.typ = "GET_PROVIDERS"
+               THEN Flag(~s.countHit, "C08", "c_request_after_count") ELSE {})])
 
 Deliver ==
   /\ Is("Deliver")
   /\ LET lk == IsLookupReq(Ev)
          live == lk /\ s.phase = "search" /\ ~s.cancelled
-         isAns == live /\ Ev.kind = "req" /\ Ev.out = "ok"
-         isFail == live /\ Ev.out # "ok"
-         okReq == lk /\ Ev.kind = "req" /\ Ev.out = "ok"
+         isAns == live /\ Ev.kind = "req" /\ EffOut(Ev) = "ok"
+         isFail == live /\ EffOut(Ev) # "ok"
+         okReq == lk /\ Ev.kind = "req" /\ EffOut(Ev) = "ok"
      IN Step([s EXCEPT
           !.entered = IF isAns THEN @ \cup FilterCap(Ev.closer) ELSE @,
           !.answered = IF isAns THEN @ \cup {Ev.p} ELSE @,
           !.failed = IF isFail THEN @ \cup {Ev.p} ELSE @,
           !.lastDel = IF isAns \/ isFail THEN Ev ELSE @,
           !.provNamed = IF okReq THEN @ \cup Range(Ev.provs) ELSE @,
-          !.vals = IF okReq /\ Ev.val # "" /\ Ev.vkey THEN @ \cup {Ev.val} ELSE @,
+          !.vals = IF okReq /\ Ev.vvalid /\ Ev.vkey /\ SearchOpen THEN @ \cup {Ev.val} ELSE @,
+          !.nvals = IF okReq /\ Ev.vvalid /\ Ev.vkey /\ SearchOpen THEN @ + 1 ELSE @,
+          !.bestRank = IF okReq /\ Ev.vvalid /\ Ev.vkey /\ SearchOpen /\ Ev.vrank > @ THEN Ev.vrank ELSE @,
+          !.withVal = IF okReq /\ Ev.vvalid /\ Ev.vkey /\ SearchOpen THEN SetSt(@, Ev.p, Ev.val) ELSE @,
           !.delAfterCancel = @ \/ (s.cancelled /\ s.ret = NoRet),
           !.viol = @ \cup Flag(s.lastDel = NoDel, "C01", "f_delivery_without_event")])
 
 Abort ==
   /\ Is("Abort")
-  /\ Step([s EXCEPT !.aborted = IF IsLookupReq(Ev) /\ s.phase = "search" THEN @ \cup {Ev.p} ELSE @])
+  \* (the flush order within one quiescent interval puts published events before
+  \* environment events, so the phase at this line says nothing about the moment of the abort)
+  /\ Step([s EXCEPT !.aborted = IF IsLookupReq(Ev) THEN @ \cup {Ev.p} ELSE @])
 
 Cancel ==
   /\ Is("Cancel")
@@ -232,24 +267,77 @@ HonestClauses(R, err) ==
 CancelClauses(ev) ==
   Flag(s.cancelled => (~s.delAfterCancel /\ ev.ts = s.cancelTs), "C03", "b_not_prompt_after_cancel")
 
+EmittedPeers == {x.p : x \in Range(s.emitted)}
+
+\* the result the lookup of this operation must have produced
+LookupResult == KNearest(Cand, c.K)
+
+ValueReturnClauses(ev) ==
+  IF s.cancelled \/ ev.err \notin {"", "notfound"} THEN {}
+  ELSE Flag(s.bestRank >= 0 => (ev.valid /\ ev.rank >= s.bestRank), "C04", "d_final_not_best")
+       \cup Flag(ev.val # "" => (ev.valid /\ ev.val \in s.vals), "C04", "a_invalid_or_foreign_final_value")
+       \cup Flag(s.vals = {} => (ev.val = "" /\ (c.op = "getvalue" => ev.err = "notfound")), "C04", "e_value_without_valid_source")
+       \cup Flag((c.op = "getvalue" /\ s.vals # {}) => ev.err = "", "C04", "e_notfound_despite_valid_value")
+
+ProvReturnClauses(ev) ==
+  Flag(s.chanClosed, "C08", "e_channel_not_closed")
+  \cup (IF ~s.cancelled /\ ev.err = "" /\ c.count = 0
+        THEN Flag(s.provNamed \subseteq EmittedPeers, "C08", "d_named_provider_not_yielded") ELSE {})
+
+PutReturnClauses(ev) ==
+  IF s.cancelled \/ ev.err # "" THEN {}
+  ELSE Flag(s.putSent = LookupResult, "C06", "b_recipients_differ_from_lookup_result")
+       \cup (IF c.op = "putvalue" THEN Flag(ev.localval = c.putval, "C06", "a_not_stored_locally") ELSE {})
+       \cup (IF c.op = "provide" THEN Flag(ev.selflocal, "C06", "c_self_not_recorded_locally") ELSE {})
+
+DeadlineClause(ev) ==
+  Flag(c.timeout > 0 => ev.ts <= c.timeout, "C03", "a_returned_after_deadline")
+
 Return ==
   /\ Is("Return")
   /\ Step([s EXCEPT
        !.ret = Ev,
-       !.phase = "returned",
        !.viol = @
          \cup (IF c.op = "gcp" THEN ResultClauses(Ev.peers) \cup AskedClause(Ev.peers, Ev.err)
                                     \cup HonestClauses(Ev.peers, Ev.err) ELSE {})
          \cup CancelClauses(Ev)
+         \cup DeadlineClause(Ev)
+         \cup (IF c.op \in {"getvalue", "searchvalue"} THEN ValueReturnClauses(Ev) ELSE {})
+         \cup (IF c.op = "findprov" THEN ProvReturnClauses(Ev) ELSE {})
+         \cup (IF c.op \in {"putvalue", "provide"} THEN PutReturnClauses(Ev) ELSE {})
          \cup Flag(s.reqd \subseteq s.sentSearch \cup s.aborted, "C01", "f_request_event_without_rpc")])
 
-Emit == Is("Emit") /\ Step([s EXCEPT !.emitted = Append(@, Ev)])
+EmitClauses ==
+  IF c.op = "searchvalue" THEN
+       Flag(Ev.valid, "C04", "a_invalid_value_emitted")
+       \cup Flag(Len(s.emitted) > 0 => Ev.rank > s.emitted[Len(s.emitted)].rank, "C04", "c_not_strictly_improving")
+       \cup Flag(Ev.val \in s.vals, "C04", "a_value_never_supplied")
+  ELSE IF c.op = "findprov" THEN
+       Flag(Ev.p \in s.provNamed, "C08", "a_provider_never_named")
+       \cup Flag(c.count > 0 => Cardinality(EmittedPeers \cup {Ev.p}) <= c.count, "C08", "b_more_than_count")
+       \cup Flag(\A x \in Range(s.emitted) : x.p = Ev.p => (x.naddrs = 0 /\ Ev.naddrs > 0), "C08", "b_peer_repeated")
+       \cup Flag(~s.chanClosed, "C08", "e_emit_after_close")
+  ELSE {}
+Emit == Is("Emit") /\ Step([s EXCEPT !.emitted = Append(@, Ev), !.viol = @ \cup EmitClauses])
 
 ChanClosed == Is("ChanClosed") /\ Step([s EXCEPT !.chanClosed = TRUE])
 
 Panic == Is("Panic") /\ Step(AddViol({<<"C03", "d_panic">>}))
 
 Hang == Is("Hang") /\ Step(AddViol({<<"C03", "a_hang">>}))
+
+\* C06 (e): after a completed value search the closest peers that did not deliver
+\* the best value are sent it, and those that did are not
+Corrective ==
+  IF c.op = "searchvalue" /\ ~s.cancelled /\ s.ret # NoRet /\ s.ret.err = "" /\ c.quorum <= 0 /\ s.ret.val # ""
+  THEN LET best == s.ret.val
+           have == {p \in DOMAIN s.withVal : s.withVal[p] = best}
+       IN Flag(s.putSent = LookupResult \ have, "C06", "e_corrective_puts_wrong")
+  ELSE {}
+
+Bg == Is("Bg") /\ Step(AddViol(Flag(Ev.n = 0, "C03", "e_background_work_left") \cup Corrective))
+
+Left == Is("Left") /\ Step(AddViol(Flag(Ev.n = 0, "C03", "e_goroutines_after_close")))
 
 PreClose == Is("PreClose") /\ Step(AddViol(Flag(s.ret # NoRet, "C03", "a_no_return")))
 
@@ -258,7 +346,7 @@ Closed == Is("Closed") /\ Step(AddViol(Flag(Ev.ok, "C03", "e_close_blocked")))
 End == Is("End") /\ Step(s)
 
 Next == RespSeed \/ RespPeer \/ ReqEv \/ TermEv \/ Sent \/ Deliver \/ Abort \/ Cancel
-        \/ Quiesce \/ Return \/ Emit \/ ChanClosed \/ Panic \/ Hang \/ PreClose \/ Closed \/ End
+        \/ Quiesce \/ Return \/ Emit \/ ChanClosed \/ Panic \/ Hang \/ Bg \/ Left \/ PreClose \/ Closed \/ End
 
 TraceSpec == Init /\ [][Next]_vars
 
